@@ -4,6 +4,7 @@ import (
 	"fmt"
 	"go/ast"
 	"go/token"
+	"go/types"
 	"strings"
 )
 
@@ -199,7 +200,229 @@ func init() {
 			e.fail("syncConfig not found")
 		}
 		fmt.Fprintf(&e.out, "def deletedInstallsDefault : Bool := %v\n", deleted)
+		c20ExtractDelivery(e)
 	}
+}
+
+// C20 extension: the two decision points of the DELIVERY path (Model/C20Hist.lean) and the routing around them.
+//   * NodeSLOReconciler.Reconcile: the guard of the only Client.Update of the NodeSLO is
+//     `!reflect.DeepEqual(<spec from getNodeSLOSpec>, &<stored>.Spec)` and its body stores that spec     — reconcileCore
+//   * EnqueueRequestForConfigMap.Update: name filter; skip iff reflect.DeepEqual(new.Data, old.Data); sync; enqueue — hstep .cmUpdate
+//   * EnqueueRequestForConfigMap.Create: type check; name filter; sync; enqueue                            — hstep .cmCreate
+//   * EnqueueRequestForConfigMap.Delete has an empty body                                                 — hstep .cmDelete
+//   * updateCacheIfChanged: changed := !reflect.DeepEqual(cache, new); available = true unconditionally   — syncIfChanged
+func c20ExtractDelivery(e *ext) {
+	callName := func(x ast.Expr) (string, *ast.CallExpr) {
+		if c, ok := x.(*ast.CallExpr); ok {
+			return types.ExprString(c.Fun), c
+		}
+		return "", nil
+	}
+	endsWithReturn := func(b *ast.BlockStmt) bool {
+		if b == nil || len(b.List) == 0 {
+			return false
+		}
+		_, ok := b.List[len(b.List)-1].(*ast.ReturnStmt)
+		return ok
+	}
+	mentions := func(n ast.Node, name string) bool {
+		found := false
+		ast.Inspect(n, func(x ast.Node) bool {
+			switch v := x.(type) {
+			case *ast.Ident:
+				found = found || v.Name == name
+			case *ast.SelectorExpr:
+				found = found || v.Sel.Name == name
+			}
+			return true
+		})
+		return found
+	}
+
+	// ---- Reconcile write guard
+	guard := []string{"missing"}
+	if fd := e.funcDecl("pkg/slo-controller/nodeslo", "NodeSLOReconciler", "Reconcile"); fd != nil && fd.Body != nil {
+		fromGet := map[string]bool{} // identifiers assigned from r.getNodeSLOSpec(...)
+		ast.Inspect(fd.Body, func(x ast.Node) bool {
+			if as, ok := x.(*ast.AssignStmt); ok && len(as.Rhs) == 1 && len(as.Lhs) >= 1 {
+				if fn, _ := callName(as.Rhs[0]); strings.HasSuffix(fn, ".getNodeSLOSpec") {
+					if id, ok := as.Lhs[0].(*ast.Ident); ok {
+						fromGet[id.Name] = true
+					}
+				}
+			}
+			return true
+		})
+		var guards [][]string
+		ast.Inspect(fd.Body, func(x ast.Node) bool {
+			is, ok := x.(*ast.IfStmt)
+			if !ok {
+				return true
+			}
+			updated := "" // the object handed to Client.Update directly in this body
+			for _, st := range is.Body.List {
+				var rhs ast.Expr
+				switch v := st.(type) {
+				case *ast.AssignStmt:
+					if len(v.Rhs) == 1 {
+						rhs = v.Rhs[0]
+					}
+				case *ast.ExprStmt:
+					rhs = v.X
+				}
+				if fn, c := callName(rhs); c != nil && strings.HasSuffix(fn, ".Update") && len(c.Args) >= 1 {
+					updated = types.ExprString(c.Args[len(c.Args)-1])
+				}
+			}
+			if updated == "" {
+				return true
+			}
+			g := []string{"other:" + types.ExprString(is.Cond)}
+			if u, ok := is.Cond.(*ast.UnaryExpr); ok && u.Op == token.NOT {
+				if fn, c := callName(u.X); c != nil && len(c.Args) == 2 {
+					a0, a1 := types.ExprString(c.Args[0]), types.ExprString(c.Args[1])
+					r0, r1 := "other:"+a0, "other:"+a1
+					if fromGet[a0] {
+						r0 = "new"
+					}
+					if a1 == "&"+updated+".Spec" {
+						r1 = "&stored.Spec"
+					}
+					stores := false
+					for _, st := range is.Body.List {
+						if as, ok := st.(*ast.AssignStmt); ok && len(as.Lhs) == 1 && len(as.Rhs) == 1 &&
+							types.ExprString(as.Lhs[0]) == updated+".Spec" && types.ExprString(as.Rhs[0]) == "*"+a0 {
+							stores = true
+						}
+					}
+					g = []string{"!" + fn, r0, r1, fmt.Sprintf("stores-new:%v", stores)}
+				}
+			}
+			guards = append(guards, g)
+			return true
+		})
+		if len(guards) == 1 {
+			guard = guards[0]
+		} else {
+			guard = []string{fmt.Sprintf("update-guards:%d", len(guards))}
+		}
+	} else {
+		e.fail("NodeSLOReconciler.Reconcile not found")
+	}
+	fmt.Fprintf(&e.out, "def reconcileWriteGuard : List String := [%s]\n", c20QuoteAll(guard))
+
+	// ---- ConfigMap event routing
+	cd := "pkg/slo-controller/config"
+	shapeOf := func(method string) ([]string, int) {
+		fd := e.funcDecl(cd, "EnqueueRequestForConfigMap", method)
+		if fd == nil || fd.Body == nil {
+			e.fail("EnqueueRequestForConfigMap.%s not found", method)
+			return []string{"missing"}, -1
+		}
+		role := map[string]string{} // local identifier -> new / old (bound from evt.ObjectNew / evt.ObjectOld)
+		var shape []string
+		for _, st := range fd.Body.List {
+			switch v := st.(type) {
+			case *ast.AssignStmt:
+				if len(v.Lhs) >= 1 && len(v.Rhs) == 1 {
+					if id, ok := v.Lhs[0].(*ast.Ident); ok {
+						switch {
+						case mentions(v.Rhs[0], "ObjectNew"):
+							role[id.Name] = "new"
+						case mentions(v.Rhs[0], "ObjectOld"):
+							role[id.Name] = "old"
+						case mentions(v.Rhs[0], "Object"):
+							role[id.Name] = "obj"
+						}
+					}
+				}
+			case *ast.IfStmt:
+				if !endsWithReturn(v.Body) || len(v.Body.List) != 1 || v.Else != nil {
+					shape = append(shape, "if-other")
+					continue
+				}
+				switch {
+				case mentions(v.Cond, "SyncCacheIfChanged"):
+					shape = append(shape, "sync")
+				case mentions(v.Cond, "SLOCtrlConfigMap") && mentions(v.Cond, "ConfigNameSpace"):
+					shape = append(shape, "name")
+				default:
+					if fn, c := callName(v.Cond); c != nil {
+						var args []string
+						for _, a := range c.Args {
+							t := types.ExprString(a)
+							if sel, ok := a.(*ast.SelectorExpr); ok {
+								if id, ok := sel.X.(*ast.Ident); ok && role[id.Name] != "" {
+									t = role[id.Name] + "." + sel.Sel.Name
+								}
+							}
+							args = append(args, t)
+						}
+						shape = append(shape, "skip-if "+fn+"("+strings.Join(args, ", ")+")")
+					} else if u, ok := v.Cond.(*ast.UnaryExpr); ok && u.Op == token.NOT && types.ExprString(u.X) == "ok" {
+						shape = append(shape, "type")
+					} else {
+						shape = append(shape, "skip-if other:"+types.ExprString(v.Cond))
+					}
+				}
+			case *ast.ExprStmt:
+				if fn, c := callName(v.X); c != nil && strings.HasSuffix(fn, ".EnqueueRequest") {
+					shape = append(shape, "enqueue")
+				} else {
+					shape = append(shape, "stmt-other")
+				}
+			default:
+				shape = append(shape, "stmt-other")
+			}
+		}
+		return shape, len(fd.Body.List)
+	}
+	up, _ := shapeOf("Update")
+	cr, _ := shapeOf("Create")
+	_, nDel := shapeOf("Delete")
+	fmt.Fprintf(&e.out, "def cmUpdateShape : List String := [%s]\n", c20QuoteAll(up))
+	fmt.Fprintf(&e.out, "def cmCreateShape : List String := [%s]\n", c20QuoteAll(cr))
+	fmt.Fprintf(&e.out, "def cmDeleteStmts : Int := %d\n", nDel)
+
+	// ---- updateCacheIfChanged
+	changed, avail := "missing", false
+	if fd := e.funcDecl("pkg/slo-controller/nodeslo", "SLOCfgHandlerForConfigMapEvent", "updateCacheIfChanged"); fd != nil && fd.Body != nil &&
+		fd.Type.Params != nil && len(fd.Type.Params.List) == 1 && len(fd.Type.Params.List[0].Names) == 1 {
+		param := fd.Type.Params.List[0].Names[0].Name
+		for _, st := range fd.Body.List {
+			as, ok := st.(*ast.AssignStmt)
+			if !ok || len(as.Lhs) != 1 || len(as.Rhs) != 1 {
+				continue
+			}
+			lhs := types.ExprString(as.Lhs[0])
+			if strings.HasSuffix(lhs, ".available") && types.ExprString(as.Rhs[0]) == "true" {
+				avail = true
+			}
+			if u, ok := as.Rhs[0].(*ast.UnaryExpr); ok && u.Op == token.NOT && changed == "missing" {
+				if fn, c := callName(u.X); c != nil && len(c.Args) == 2 {
+					var args []string
+					for _, a := range c.Args {
+						t := types.ExprString(a)
+						switch {
+						case t == param:
+							t = "new"
+						case strings.HasSuffix(t, ".cfgCache.sloCfg"):
+							t = "cache"
+						}
+						args = append(args, t)
+					}
+					changed = lhs + " := !" + fn + "(" + strings.Join(args, ", ") + ")"
+				}
+			}
+		}
+		if ret, ok := fd.Body.List[len(fd.Body.List)-1].(*ast.ReturnStmt); !ok || len(ret.Results) != 1 || !strings.HasPrefix(changed, types.ExprString(ret.Results[0])+" := ") {
+			changed = "not-returned:" + changed
+		}
+	} else {
+		e.fail("updateCacheIfChanged not found")
+	}
+	fmt.Fprintf(&e.out, "def cacheChangedExpr : String := %s\n", leanStr(changed))
+	fmt.Fprintf(&e.out, "def availableSetUnconditionally : Bool := %v\n", avail)
 }
 
 func c20QuoteAll(ss []string) string {
